@@ -755,7 +755,7 @@ func RunReusedNotation(c *core.Ctx, prop string) {
 
 // RunC11M1: the schedules of scanner and parser for one derived sentence are
 // explored depth-first under the controlled scheduler (at most two
-// preemptions, budgeted); every schedule must end (no goroutine left parked:
+// preemptions, 150 / 1000 schedules per sentence); every schedule must end (no goroutine left parked:
 // that includes the scanner) with the denotation of the sentence.
 // onlyMalformed (C12) draws malformed documents only and classifies every
 // outcome against the statement of C12 as well.
@@ -777,7 +777,7 @@ func RunC11M1(c *core.Ctx, onlyMalformed bool, explore func(src string, budget, 
 		}
 		want = "List[" + strings.Join(cs, " ") + "]"
 	}
-	budget := core.Tiered(c.Tier, 150, 3000)
+	budget := core.Tiered(c.Tier, 150, 1000)
 	malformed := r.Chance(1, 4) || onlyMalformed
 	if malformed {
 		// a malformed document with a long tail behind the first error: the
